@@ -1,0 +1,8 @@
+//go:build verif
+
+package NoKV
+
+import "github.com/feichai0017/NoKV/lsm"
+
+// VerifLSM exposes the LSM of an open DB to the verification harness (build tag `verif`).
+func (db *DB) VerifLSM() *lsm.LSM { return db.lsm }
